@@ -75,6 +75,36 @@ def check_step(R, name, default=False):
     R.sample({"env": name, "obligations": [o["name"] for o in R.obl][:8], "state_vars": R.nvars})
 
 
+def check_step_domain(R, cfg):
+    """the same protocol obligations from the per-environment harness DOMAIN (ranged fields, cached mask tied by the code's own mask
+    function, invariant NOT assumed): a much smaller formula than the arbitrary-dtype-range state of check_step, so that a
+    wrong termination construction stays decidable where the big query goes `unknown` (PacMan: a seeded 'MID with zero discount at
+    the time limit' change was unknown at 120 s from the arbitrary state and sat in seconds from the domain)."""
+    from checks import drivers as D
+    from envs import base
+    from engine.vexpr import vs, all_, any_
+    H = base.get(cfg)
+    sp = D.build_step(R, H, with_inv=False, validate=0)
+    lbf = type(H.env).__name__ == "LevelBasedForaging"
+    F0, F1 = np.float32(0), np.float32(1)
+
+    def obl(st, act, ns, ts):
+        d = np.asarray(vs(ts.discount), dtype=object).reshape(-1)
+        stp = vs(ts.step_type)
+        zero = all_([x == F0 for x in d])
+        out = [("domain: step_type in {MID,LAST}", (stp == 1) | (stp == 2)),
+               ("domain: discount in [0,1]", all_([(x >= F0) & (x <= F1) for x in d])),
+               ("domain: MID => discount not all zero", (stp == 1).implies(~zero))]
+        if not lbf:
+            out.append(("domain: LAST => discount == 0", (stp == 2).implies(zero)))
+        else:
+            trunc = (vs(ns.step_count) >= H.env.time_limit) & ~all_(list(np.asarray(vs(ns.food_items.eaten), dtype=object).reshape(-1)))
+            out.append(("domain: LAST and discount != 0 => documented truncation (time limit reached, food left)", ((stp == 2) & ~zero).implies(trunc)))
+        return out
+    D.prove_list(R, sp, obl)
+    R.sample({"config": cfg, "state": "harness domain, invariant not assumed"})
+
+
 def check_reset(R, name):
     env = configs.make(name)
     R.bound(config=name, key="symbolic uint32[2]", draws="arbitrary within jax.random contracts")
@@ -106,6 +136,13 @@ def jobs(tier, seed):
     names = list(QUICK) + (THOROUGH_EXTRA if tier == "thorough" else [])
     js = [(f"{n}/step", "checks.C03", "check_step", {"name": n}) for n in names]
     js += [(f"{n}/reset", "checks.C03", "check_reset", {"name": n}) for n in names + RESET_EXTRA if n not in RESET_SKIP]
+    from envs import base
+    for n in base.available():
+        cls = base.cls_of(n)
+        if cls.BMC:
+            continue
+        for cfg in cls.QUICK[:1] + (cls.QUICK[1:] if tier == "thorough" else []):
+            js.append((f"{cfg}/step@domain", "checks.C03", "check_step_domain", {"cfg": cfg}))
     if tier == "thorough":
         js += [(f"{n}@default/step", "checks.C03", "check_step", {"name": n, "default": True}) for n in configs.DEFAULT_OK]
     return js
